@@ -4,7 +4,7 @@ set -u
 patch=$1; shift
 cd /repo || exit 2
 if ! git diff --quiet; then echo "/repo has uncommitted changes"; exit 2; fi
-git apply "$patch" || { echo "patch does not apply"; exit 2; }
+git apply "$(cd /verif; realpath "$patch")" || { echo "patch does not apply"; exit 2; }
 cd /verif
 for p in "$@"; do
   echo "--- $p"
